@@ -68,6 +68,18 @@ def build(variant, quiet=True):
     hv = _hash_inputs(variant, harness if variant != "off" else [])
     if os.path.exists(stamp) and open(stamp).read() == hv and os.path.exists(os.path.join(out, "kalign")):
         return out
+    # several checks may be started side by side on a changed tree: one of them builds, the others wait and find the stamp
+    import fcntl
+    with open(os.path.join(out, ".lock"), "w") as lk:
+        fcntl.flock(lk, fcntl.LOCK_EX)
+        if os.path.exists(stamp) and open(stamp).read() == hv and os.path.exists(os.path.join(out, "kalign")):
+            return out
+        return _build_locked(variant, v, out, harness, stamp, hv, quiet)
+
+
+def _build_locked(variant, v, out, harness, stamp, hv, quiet):
+    if os.path.exists(stamp):
+        os.remove(stamp)
     inc = os.path.join(out, "inc")
     os.makedirs(inc, exist_ok=True)
     incs = "-I%s -I%s -I%s -I%s" % (inc, os.path.join(REPO, "lib", "include"), os.path.join(REPO, "lib", "src"), os.path.join(REPO, "src"))
@@ -85,9 +97,11 @@ def build(variant, quiet=True):
         os.remove(lib)
     run("ar rcs %s %s" % (lib, " ".join(objs)))
     cli = [os.path.join(REPO, "src", "run_kalign.c"), os.path.join(REPO, "src", "parameters.c")]
-    run("%s %s %s %s %s %s -o %s %s -lm -lpthread" % (v["cc"], v["flags"], COMMON, incs, " ".join(cli), lib, os.path.join(out, "kalign"), v["ld"]))
+    run("%s %s %s %s %s %s -o %s %s -lm -lpthread" % (v["cc"], v["flags"], COMMON, incs, " ".join(cli), lib, os.path.join(out, "kalign.new"), v["ld"]))
+    os.replace(os.path.join(out, "kalign.new"), os.path.join(out, "kalign"))
     if variant != "off":
-        run("%s %s %s %s %s %s -o %s %s -lm -lpthread" % (v["cc"], v["flags"], COMMON, incs, harness[0], lib, os.path.join(out, "kvdrive"), v["ld"]))
+        run("%s %s %s %s %s %s -o %s %s -lm -lpthread" % (v["cc"], v["flags"], COMMON, incs, harness[0], lib, os.path.join(out, "kvdrive.new"), v["ld"]))
+        os.replace(os.path.join(out, "kvdrive.new"), os.path.join(out, "kvdrive"))
     open(stamp, "w").write(hv)
     if not quiet:
         print("built", variant, "->", out)
